@@ -317,6 +317,25 @@ func (e *Exec) pureResult(con *Contract, name string, args []Term, rt *types.Tup
 	ra, rs := e.p.readArgs(u, con.Reads, h, anchor)
 	argS = append(argS, ra...)
 	argSorts = append(argSorts, rs...)
+	// A pure function allocates nothing: a reference it returns exists already in the oldest
+	// state in which everything it reads had today's value; with no reads changed since the
+	// function under verification was entered, that is the entry state.
+	invHeap := h
+	if e.vc.entryHeap != nil && h != nil {
+		same := true
+		ra0, _ := e.p.readArgs(u, con.Reads, e.vc.entryHeap, anchor)
+		if len(ra0) != len(ra) {
+			same = false
+		}
+		for i := range ra0 {
+			if i < len(ra) && ra0[i] != ra[i] {
+				same = false
+			}
+		}
+		if same {
+			invHeap = e.vc.entryHeap
+		}
+	}
 	mkres := func(i int) Term {
 		t := rt.At(i).Type()
 		so := u.sortOf(t)
@@ -330,11 +349,28 @@ func (e *Exec) pureResult(con *Contract, name string, args []Term, rt *types.Tup
 		}
 		u.declareUF(fn, fmt.Sprintf("(declare-fun %s (%s) %s)", fn, strings.Join(argSorts, " "), so))
 		tm := mk(app(fn, argS...), so, t)
+		if len(con.Reads) == 0 && so == SInt && isRefLike(t) && e.vc.clock0 != "" {
+			// no reads, no allocation: any reference it returns existed when the function under
+			// verification was entered (quantified, so that it also holds under binders)
+			if e.vc.axInst == nil {
+				e.vc.axInst = map[string]bool{}
+			}
+			if !e.vc.axInst["pureref|"+fn] {
+				e.vc.axInst["pureref|"+fn] = true
+				var bs, bn []string
+				for j, s := range argSorts {
+					bs = append(bs, fmt.Sprintf("(x%d %s)", j, s))
+					bn = append(bn, fmt.Sprintf("x%d", j))
+				}
+				ap := app(fn, bn...)
+				e.vc.def(fmt.Sprintf("(forall (%s) (! (< (root %s) %s) :pattern (%s)))", strings.Join(bs, " "), ap, e.vc.clock0, ap))
+			}
+		}
 		return tm
 	}
 	if rt.Len() == 1 {
 		t := mkres(0)
-		if inv := e.typeInv(t, h); inv != "true" && !e.noName {
+		if inv := e.typeInv(t, invHeap); inv != "true" && !e.noName {
 			e.vc.assume(inv)
 		}
 		return t
@@ -342,7 +378,7 @@ func (e *Exec) pureResult(con *Contract, name string, args []Term, rt *types.Tup
 	var r Term
 	for i := 0; i < rt.Len(); i++ {
 		t := mkres(i)
-		if inv := e.typeInv(t, h); inv != "true" && !e.noName {
+		if inv := e.typeInv(t, invHeap); inv != "true" && !e.noName {
 			e.vc.assume(inv)
 		}
 		r.Tup = append(r.Tup, t)
